@@ -19,6 +19,7 @@ import jax
 import jax.numpy as jnp
 
 from harness import core
+from harness.workers.fd_common import in_code_under_test as _icut
 from harness.workers.fd_common import orth
 
 
@@ -200,6 +201,8 @@ def case_apply(c, rs, tol):
             jnp.asarray(g, _dt()), pre.should_precondition_dims(),
             pre._preconds_for_grad(list(precs), len(shape), 0, len(precs))), np.float64)
       except Exception as e:
+        if not _icut(e):
+          raise
         bad.append(["apply_exception", f"rank={rank} {type(e).__name__}: {str(e)[:200]}"])
         continue
       if list(pre.should_precondition_dims()) != list(c["should"]):
@@ -227,6 +230,8 @@ def handle(job):
   except core.MachineryError:
     raise
   except Exception as e:
+    if not _icut(e):
+      raise
     return {"bad": [["exception", f"{type(e).__name__}: {str(e)[:300]}"]], "worst": {},
             "tb": traceback.format_exc()[-1500:], "kind": core.classify_exception(e)}
 
